@@ -1,6 +1,7 @@
 package props
 
 import (
+	"fmt"
 	"strings"
 
 	"github.com/AdguardTeam/urlfilter"
@@ -20,6 +21,8 @@ var c15Hostnames = []string{
 	"a.com", "b.a.com", "c.b.a.com", "xa.com", "google.com", "www.google.co.uk", "google.evil.xgoogle.com", "xgoogle.com", "example.de",
 	"a.co.uk", "b.a.co.uk", "evil.org", "unrelated.net", "org", "localhost",
 	"maps.example.com", "www.maps.example.co.uk", "xmaps.example.com", "maps.example.evil.org", "www.google.de", "b.a.org", "c.b.a.co.uk",
+	// Many labels: the walk over parent domains has no small bound.
+	"a.b.c.d.e.f.g.h.i.j.k.l.example.org", gen.DeepHost,
 }
 
 // c15CollidingSelectors is set per case: selectors with the same FastHash.
@@ -56,6 +59,18 @@ func c15Rule(c *core.Ctx) string {
 	}
 	if exception && !hasPermitted {
 		doms = append(doms, c15Domains[c.Rng.Intn(len(c15Domains))])
+		hasPermitted = true
+	}
+	if len(doms) > 0 && c.Rng.Intn(30) == 0 {
+		// A long domain list (fillers in the polarity that changes nothing).
+		for i, n := 0, 15+c.Rng.Intn(66); i < n; i++ {
+			f := fmt.Sprintf("f%d.filler.example", i)
+			if !hasPermitted {
+				f = "~" + f
+			}
+			j := c.Rng.Intn(len(doms) + 1)
+			doms = append(doms[:j], append([]string{f}, doms[j:]...)...)
+		}
 	}
 	marker := "##"
 	if exception {
@@ -151,6 +166,10 @@ func c15Run(c *core.Ctx, idx int) {
 		return
 	}
 	n := 1 + c.Rng.Intn(10)
+	if c.Rng.Intn(12) == 0 {
+		// Many rules for the same few selectors and domains.
+		n = 20 + c.Rng.Intn(100)
+	}
 	var list []string
 	c15CollidingSelectors = nil
 	if c.Rng.Intn(2) == 0 {
